@@ -241,3 +241,16 @@ Theorem C15_returns_closed_form_executable : forall p h st i acc,
   nth i (v_returns (vn_run update_red Qred p st h)) 0 == disc (p_gamma p) (rewards_since i acc h).
 Proof. exact vn_returns_closed_form_executable. Qed.
 Print Assumptions C15_returns_closed_form_executable.
+
+(* ---- model mutation score: unnormalize_obs per key ---- *)
+Theorem C15_unnormalize_per_key : forall p chans ms ss y ch,
+  length ms = length chans -> length ss = length chans -> length y = length chans -> (ch < length chans)%nat ->
+  nth ch (norm_unvec p true chans ms ss y) 0
+  = if nth ch chans false then unnormalize_s (nth ch y 0) (r_mean (nth ch ms (rms_init eps_default))) (nth ch ss 0) else nth ch y 0.
+Proof. exact norm_unvec_per_key. Qed.
+Print Assumptions C15_unnormalize_per_key.
+
+Theorem C15_unnormalize_off_is_identity : forall p chans ms ss y,
+  length ms = length chans -> length ss = length chans -> length y = length chans -> norm_unvec p false chans ms ss y = y.
+Proof. exact norm_unvec_off. Qed.
+Print Assumptions C15_unnormalize_off_is_identity.
